@@ -248,7 +248,7 @@ def utility_witnesses(kmax=10):
             E.append([(Fraction(factorial(i), factorial(i - p)) * (Fraction(1, 2) ** (i - p)) if i >= p else Fraction(0)) for i in range(K + 1)])
         d = table_literal("E", E) + "\nstatic_assert(vw::relerr(smooth::monomial_derivatives<%d, %d, double>(0.5), E) <= %s, \"monomial_derivatives\");\n" % (K, P, TOL)
         ws.append(wit.Wit("mders_%d" % K, "", d, what="monomial_derivatives<%d,%d>(1/2)" % (K, P), group="monomial-derivative"))
-        for P in range(0, min(K, 4) + 1):
+        for P in range(0, K + 2):
             E = [[(Fraction(factorial(i), factorial(i - P)) * Fraction(factorial(j), factorial(j - P)) / (i + j - 2 * P + 1) if (i >= P and j >= P) else Fraction(0))
                   for j in range(K + 1)] for i in range(K + 1)]
             d = table_literal("E", E) + "\nstatic_assert(vw::relerr(smooth::monomial_integral<%d, %d, double>(), E) <= %s, \"monomial_integral<%d,%d>\");\n" % (K, P, TOL, K, P)
